@@ -16,6 +16,7 @@ Prog == JsonDeserialize(IOEnv.PROGRAM_FILE)
 Program == Prog.ops            \* sequence of [op, path, dst]
 Paths == {Program[i].path : i \in 1..Len(Program)} \cup {Program[i].dst : i \in 1..Len(Program)} \cup {"data"}
 HadOld == Prog.had_old = 1     \* was there a previous data.json?
+Leftover == Prog.leftover      \* chunks of a stale scratch file left behind by an earlier interrupted save (0 = none)
 
 VARIABLES pc, disk, buf, open, wrote, ended, how
 vars == <<pc, disk, buf, open, wrote, ended, how>>
@@ -30,11 +31,15 @@ Total(p) == Cardinality({i \in 1..Len(Program) : Program[i].op = "write" /\ Prog
 NewText(p) == Text([i \in 1..Total(p) |-> i])
 
 Init == /\ pc = 1
-        /\ disk = [p \in Paths |-> IF p = "data" THEN OldContent ELSE Absent]
+        /\ disk = [p \in Paths |-> IF p = "data" THEN OldContent
+                                   ELSE IF Leftover > 0 THEN Text([i \in 1..Leftover |-> 0 - i]) ELSE Absent]   \* stale chunks are negative ids
         /\ buf = [p \in Paths |-> <<>>] /\ open = {} /\ wrote = [p \in Paths |-> 0]
         /\ ended = FALSE /\ how = "running"
 
-FlushP(d, b, p) == [d EXCEPT ![p] = Text(d[p].s \o b[p])]
+\* flushed chunks overwrite the file from the position reached so far (wrote - buffered); what lies beyond stays
+Overwrite(old, pos, new) == [i \in 1..(IF pos + Len(new) > Len(old) THEN pos + Len(new) ELSE Len(old)) |->
+                               IF i <= pos THEN old[i] ELSE IF i <= pos + Len(new) THEN new[i - pos] ELSE old[i]]
+FlushP(d, b, p) == [d EXCEPT ![p] = Text(Overwrite(d[p].s, wrote[p] - Len(b[p]), b[p]))]
 
 \* one operation of the program
 Do == /\ ~ended /\ pc <= Len(Program)
@@ -43,6 +48,8 @@ Do == /\ ~ended /\ pc <= Len(Program)
                                      /\ buf' = [buf EXCEPT ![o.path] = <<>>] /\ wrote' = [wrote EXCEPT ![o.path] = 0]
            [] o.op = "open_excl"  -> /\ disk' = [disk EXCEPT ![o.path] = Text(<<>>)] /\ open' = open \cup {o.path}
                                      /\ buf' = [buf EXCEPT ![o.path] = <<>>] /\ wrote' = [wrote EXCEPT ![o.path] = 0]
+           [] o.op = "open_keep"  -> /\ open' = open \cup {o.path} /\ buf' = [buf EXCEPT ![o.path] = <<>>]
+                                     /\ wrote' = [wrote EXCEPT ![o.path] = 0] /\ UNCHANGED disk      \* existing content stays; writing starts at offset 0
            [] o.op = "write"      -> /\ buf' = [buf EXCEPT ![o.path] = Append(@, wrote[o.path] + 1)]
                                      /\ wrote' = [wrote EXCEPT ![o.path] = @ + 1] /\ UNCHANGED <<disk, open>>
            [] o.op = "flush"      -> /\ disk' = FlushP(disk, buf, o.path) /\ buf' = [buf EXCEPT ![o.path] = <<>>] /\ UNCHANGED <<open, wrote>>
